@@ -735,3 +735,159 @@ Proof.
   repeat split; [destruct xs; [now elim Hne|reflexivity]| |lia].
   rewrite slice_add, Hz, Es. reflexivity.
 Qed.
+
+(** ** the common header of arrays and dicts in the value decoders: length, element alignment, sub-context *)
+Definition u_header (be : bool) (a : N) (c : uctx) : outcome (N * (uctx * uctx)) :=
+  do r <- u_read_fixed be 4 c;
+  do n <- check_array_len (fst r);
+  do c1 <- u_align a (snd r);
+  do s <- u_sub n c1;
+  Ok (n, s).
+
+Lemma unmarshal_p_array_eq' vf be e c : unmarshal_p (S vf) be (TArray e) c =
+  do c <- u_enter c;
+  do r <- (do h <- u_header be (align e) c;
+           do vs <- sub_loop (unmarshal_p (S vf) be e) (S (N.to_nat (fst h))) (fst (snd h)) [];
+           Ok (VArray e vs, snd (snd h)));
+  Ok (fst r, u_leave (snd r)).
+Proof.
+  rewrite unmarshal_p_array_eq. unfold u_header. destruct (u_enter c) as [c0| | | |]; cbn [bind]; try reflexivity.
+  destruct (u_read_fixed be 4 c0) as [r| | | |]; cbn [bind]; try reflexivity.
+  destruct (check_array_len (fst r)) as [n| | | |]; cbn [bind]; try reflexivity.
+  destruct (u_align (align e) (snd r)) as [c1| | | |]; cbn [bind]; try reflexivity.
+  destruct (u_sub n c1) as [s| | | |]; cbn [bind]; reflexivity.
+Qed.
+Lemma unmarshal_p_dict_eq' vf be k v c : unmarshal_p (S vf) be (TDict k v) c =
+  do c <- u_enter c;
+  do r <- (do h <- u_header be 8 c;
+           do kvs <- sub_loop (fun c => do c <- u_align 8 c;
+                                        do kr <- u_base be k c;
+                                        do vr <- unmarshal_p (S vf) be v (snd kr);
+                                        Ok ((fst kr, fst vr), snd vr))
+                              (S (N.to_nat (fst h))) (fst (snd h)) [];
+           Ok (VDict k v kvs, snd (snd h)));
+  Ok (fst r, u_leave (snd r)).
+Proof.
+  rewrite unmarshal_p_dict_eq. unfold u_header. destruct (u_enter c) as [c0| | | |]; cbn [bind]; try reflexivity.
+  destruct (u_read_fixed be 4 c0) as [r| | | |]; cbn [bind]; try reflexivity.
+  destruct (check_array_len (fst r)) as [n| | | |]; cbn [bind]; try reflexivity.
+  destruct (u_align 8 (snd r)) as [c1| | | |]; cbn [bind]; try reflexivity.
+  destruct (u_sub n c1) as [s| | | |]; cbn [bind]; reflexivity.
+Qed.
+Lemma unmarshal_t_array_slow_eq vf be x c : valid_slice be (erase x) = false -> unmarshal_t (S vf) be (EArray x) c =
+  do c0 <- u_align 4 c;
+  do h <- u_header be (ealign x) c0;
+  do vs <- sub_loop (fun c => do c <- u_align (ealign x) c; unmarshal_t (S vf) be x c) (S (N.to_nat (fst h))) (fst (snd h)) [];
+  Ok (VArray (erase x) vs, snd (snd h)).
+Proof.
+  intros Hvs. rewrite unmarshal_t_array_eq, Hvs. unfold u_header. destruct (u_align 4 c) as [c0| | | |]; cbn [bind]; try reflexivity.
+  destruct (u_read_fixed be 4 c0) as [r| | | |]; cbn [bind]; try reflexivity.
+  destruct (check_array_len (fst r)) as [n| | | |]; cbn [bind]; try reflexivity.
+  destruct (u_align (ealign x) (snd r)) as [c1| | | |]; cbn [bind]; try reflexivity.
+  destruct (u_sub n c1) as [s| | | |]; cbn [bind]; reflexivity.
+Qed.
+Lemma unmarshal_t_dict_eq' vf be k v c : unmarshal_t (S vf) be (EDict k v) c =
+  do c0 <- u_align 4 c;
+  do h <- u_header be 8 c0;
+  do kvs <- sub_loop (fun c => do c <- u_align 8 c;
+                               do kr <- u_base be k c;
+                               do c2 <- u_align (ealign v) (snd kr);
+                               do vr <- unmarshal_t (S vf) be v c2;
+                               Ok ((fst kr, fst vr), snd vr))
+                     (S (N.to_nat (fst h))) (fst (snd h)) [];
+  Ok (VDict k (erase v) kvs, snd (snd h)).
+Proof.
+  rewrite unmarshal_t_dict_eq. unfold u_header. destruct (u_align 4 c) as [c0| | | |]; cbn [bind]; try reflexivity.
+  destruct (u_read_fixed be 4 c0) as [r| | | |]; cbn [bind]; try reflexivity.
+  destruct (check_array_len (fst r)) as [n| | | |]; cbn [bind]; try reflexivity.
+  destruct (u_align 8 (snd r)) as [c1| | | |]; cbn [bind]; try reflexivity.
+  destruct (u_sub n c1) as [s| | | |]; cbn [bind]; reflexivity.
+Qed.
+
+Lemma check_array_len_ok n m : check_array_len n = Ok m -> m = n /\ n <= MAX_ARRAY.
+Proof. unfold check_array_len. destruct (N.ltb_spec MAX_ARRAY n) as [|Hn]; [discriminate|]. intros E. injection E as <-. auto. Qed.
+
+(* what a successful header says about the bytes *)
+Lemma u_header_ok be a c n s c3 : 0 < a -> bytes_ok (ubuf c) -> u_header be a c = Ok (n, (s, c3)) ->
+  let off := uoff c in
+  let p1 := padlen 4 off in
+  let start := off + p1 + 4 in
+  let p2 := padlen a start in
+  n <= MAX_ARRAY /\ slice (ubuf c) off p1 = zeros p1 /\ slice (ubuf c) (off + p1) 4 = enc be 4 n
+  /\ slice (ubuf c) start p2 = zeros p2 /\ start + p2 + n <= len (ubuf c)
+  /\ s = {| ubuf := firstnN (start + p2 + n) (ubuf c); uoff := start + p2; unfds := unfds c; udepth := udepth c |}
+  /\ c3 = set_off c (start + p2 + n).
+Proof.
+  intros Ha Hb. unfold u_header.
+  destruct (u_read_fixed be 4 c) as [[n0 c1]| | | |] eqn:E1; cbn [bind fst snd]; try discriminate.
+  destruct (u_read_fixed_ok be 4 _ _ _ (Nat.lt_0_succ 3) E1) as (-> & Hl1 & Hz1 & En). cbv zeta in *. change (N.of_nat 4) with 4 in *.
+  destruct (check_array_len n0) as [n1| | | |] eqn:E2; cbn [bind]; try discriminate.
+  destruct (check_array_len_ok _ _ E2) as [-> Hmax].
+  destruct (u_align a _) as [c2| | | |] eqn:E3; cbn [bind]; try discriminate.
+  destruct (u_align_ok _ _ _ Ha E3) as (-> & Hl2 & Hz2). cbn [set_off ubuf uoff unfds udepth] in *.
+  destruct (u_sub n0 _) as [[s' c3']| | | |] eqn:E4; cbn [bind]; try discriminate.
+  apply u_sub_ok in E4; [|exact Hl2]. destruct E4 as (Hl3 & -> & ->). cbn [set_off ubuf uoff unfds udepth] in *.
+  intros H. injection H as <- <- <-. repeat split; try assumption.
+  subst n0. destruct (enc_dec_slice be (ubuf c) (uoff c + padlen 4 (uoff c)) 4 Hb ltac:(change (N.of_nat 4) with 4; lia)) as [E _].
+  change (N.of_nat 4) with 4 in E. now symmetry.
+Qed.
+
+(** ** extended (Rust) types: induction principle, well-formedness, nesting measures *)
+Section ety_ind'.
+  Variable P : ety -> Prop.
+  Hypothesis Hbase : forall b, P (EBase b).
+  Hypothesis Harr : forall x, P x -> P (EArray x).
+  Hypothesis Hstruct : forall es, Forall P es -> P (EStruct es).
+  Hypothesis Hdict : forall k v, P v -> P (EDict k v).
+  Hypothesis Hvar : forall x, P x -> P (EVar x).
+  Fixpoint ety_ind' (e : ety) : P e :=
+    match e with
+    | EBase b => Hbase b
+    | EArray x => Harr x (ety_ind' x)
+    | EStruct es => Hstruct es ((fix go (l : list ety) : Forall P l :=
+                                   match l with [] => Forall_nil P | x :: xs => Forall_cons x (ety_ind' x) (go xs) end) es)
+    | EDict k v => Hdict k v (ety_ind' v)
+    | EVar x => Hvar x (ety_ind' x)
+    end.
+End ety_ind'.
+
+(* no empty tuple structs, also inside variants *)
+Fixpoint ewf (e : ety) : bool :=
+  match e with
+  | EBase _ => true
+  | EArray x => ewf x
+  | EStruct es => negb (match es with [] => true | _ => false end) && forallb ewf es
+  | EDict _ v => ewf v
+  | EVar x => ewf x
+  end.
+(* how many Variant<..> are nested inside each other: what the typed decoder's fuel counts *)
+Fixpoint evars (e : ety) : nat :=
+  match e with
+  | EBase _ => 0
+  | EArray x => evars x
+  | EStruct es => fold_right (fun x m => Nat.max (evars x) m) 0%nat es
+  | EDict _ v => evars v
+  | EVar x => S (evars x)
+  end.
+(* container nesting of the Rust type: a bound on the nesting of every value it can decode *)
+Fixpoint edepth (e : ety) : N :=
+  match e with
+  | EBase _ => 0
+  | EArray x => 1 + edepth x
+  | EStruct es => 1 + fold_right (fun x m => N.max (edepth x) m) 0 es
+  | EDict _ v => 1 + edepth v
+  | EVar x => 1 + edepth x
+  end.
+
+Lemma ewf_wf e : ewf e = true -> wf (erase e) = true.
+Proof.
+  induction e as [b|x IH|es IH|k v IH|x IH] using ety_ind'; cbn [ewf erase wf]; auto.
+  intros H. apply andb_prop in H. destruct H as [Hne H]. apply andb_true_intro. split.
+  - destruct es; [discriminate|reflexivity].
+  - rewrite forallb_forall in H |- *. intros t Hin. apply in_map_iff in Hin. destruct Hin as (x & <- & Hin).
+    rewrite Forall_forall in IH. apply IH; auto.
+Qed.
+Lemma evars_in es x : In x es -> (evars x <= evars (EStruct es))%nat.
+Proof. cbn [evars]. induction es as [|y es IH]; intros Hin; [destruct Hin|]. cbn [fold_right]. destruct Hin as [->|Hin]; [lia|]. specialize (IH Hin). lia. Qed.
+Lemma edepth_in es x : In x es -> 1 + edepth x <= edepth (EStruct es).
+Proof. cbn [edepth]. induction es as [|y es IH]; intros Hin; [destruct Hin|]. cbn [fold_right]. destruct Hin as [->|Hin]; [lia|]. specialize (IH Hin). lia. Qed.
